@@ -1567,6 +1567,14 @@ func (g *gen) behC03() M {
 		steps = append(steps, send(M{"t": "Big", "ty": g.pick("Q", "P", "B", "U", "U", "d", "S"), "over": 1 + g.rng.Intn(300)}),
 			send(M{"t": "S"}), send(M{"t": "Q", "q": g.trivialQ()}))
 	}
+	if g.chance(0.25) {
+		// ... and inside COPY, where the handler stops reading at the first failure: the rest of the oversized
+		// message is skipped all the same
+		g.id++
+		cst := M{"id": g.id, "cols": g.cols(1), "oids": []any{}, "prog": []any{M{"op": "copyin", "fmt": 0}, M{"op": "copyread", "onerr": "ret"}, M{"op": "copyread", "onerr": "ret"}, M{"op": "complete", "tag": "COPY"}, M{"op": "ret", "r": "nil"}}}
+		steps = append(steps, send(M{"t": "Q", "q": M{"id": g.id, "parse": "ok", "stmts": []any{cst}}}), send(M{"t": "d"}),
+			send(M{"t": "Big", "ty": g.pick("d", "d", "Q", "U"), "over": 1 + g.rng.Intn(500)}), send(M{"t": "c"}), send(M{"t": "S"}), send(M{"t": "Q", "q": g.trivialQ()}))
+	}
 	if g.chance(0.3) {
 		steps = append(steps, send(M{"t": "Bad", "ty": g.pick("Q", "P", "B", "D", "E"), "cls": g.pick("nonul", "short", "count")}),
 			send(M{"t": "Q", "q": g.trivialQ()}), send(M{"t": "S"}))
